@@ -1,14 +1,18 @@
 (* C20 — correspondence check and oracle, evaluated by vm_compute on the cases the Go
    harness observed on the real nodepoolhealth.State and lifecycle controllers. *)
 From Coq Require Import ZArith String.
-From KV Require Import C20.Model.
+From KV Require Import C20.Model C20.Attempts.
 Open Scope string_scope.
 
 Definition obs3 := (status * status * status)%type.
 
+(* attempt-level observation: NodePool condition, tracker probes, and per NodeClaim (Registered=True, deleted) *)
+Inductive aobs := AObs (c : cond) (t : obs3) (cl : list cobs).
+
 Inductive case :=
 | CaseT (ops : list top) (obs : list obs3)     (* Status, DryRun(true).Status, DryRun(false).Status after each op *)
-| CaseS (ops : list op) (obs : list cond).     (* NodePool condition after each op *)
+| CaseS (ops : list op) (obs : list cond)      (* NodePool condition after each op *)
+| CaseA (ops : list aop) (obs : list aobs).    (* attempt level: condition, tracker probes, (Registered, gone) per claim after each op *)
 
 Definition obs3_eqb (a b : obs3) : bool :=
   let '(a1, a2, a3) := a in let '(b1, b2, b3) := b in
@@ -41,13 +45,42 @@ Fixpoint checkS (s : sys) (a : list bool * cond) (ops : list op) (obs : list con
   | _, _ => (false, false)
   end.
 
+(* ---- attempt level ---- *)
+Definition cobs_eqb (a b : cobs) : bool := Bool.eqb (fst a) (fst b) && Bool.eqb (snd a) (snd b).
+Fixpoint cobs_list_eqb (a b : list cobs) : bool :=
+  match a, b with
+  | [], [] => true
+  | x :: a', y :: b' => cobs_eqb x y && cobs_list_eqb a' b'
+  | _, _ => false
+  end.
+
+Fixpoint checkA (st : asys) (a : list bool * cond) (prev : list cobs) (ops : list aop) (obs : list aobs) : bool * bool :=
+  match ops, obs with
+  | [], [] => (true, true)
+  | o :: ops', AObs oc ot ocl :: obs' =>
+      let st' := astep fixed st o in
+      let a' := spec_astep a prev o ocl in
+      let '(c, r) := checkA st' a' ocl ops' obs' in
+      (cond_eqb oc (condn (a_sys st')) && obs3_eqb ot (model_obs (buf (a_sys st')))
+         && cobs_list_eqb ocl (aobs_of st') && c,
+       cond_eqb oc (snd a') && obs3_eqb ot (spec_obs (fst a')) && r)
+  | _, _ => (false, false)
+  end.
+
 Definition check_case (c : case) : list string :=
+  match c with
+  | CaseA ops obs =>
+      let '(corr, orc) := checkA ainit ([], CUnknown) [] ops obs in
+      (if corr then [] else ["corr:attempts"]) ++ (if orc then [] else ["oracle:window-tracks-attempts"])
+  | _ =>
   let '(corr, orc) :=
     match c with
     | CaseT ops obs => checkT empty [] ops obs
     | CaseS ops obs => checkS init ([], CUnknown) ops obs
+    | CaseA _ _ => (true, true)
     end in
-  (if corr then [] else ["corr:model"]) ++ (if orc then [] else ["oracle:window"]).
+  (if corr then [] else ["corr:model"]) ++ (if orc then [] else ["oracle:window"])
+  end.
 
 Definition check_all (cs : list (Z * case)) : list (Z * string) :=
   flat_map (fun ic => map (fun t => (fst ic, t)) (check_case (snd ic))) cs.
